@@ -539,6 +539,11 @@ class Coder(object):
         """
         operator_code, operand_value = descriptor.operator_code, descriptor.operand_value
 
+        # A run of quality values (class 33 elements after 222000) is concluded by the
+        # first descriptor that is not one of them, be it an element or an operator
+        if state.status_qa_info_follows == QA_INFO_PROCESSING:
+            state.status_qa_info_follows = QA_INFO_NA
+
         if operator_code == 201:  # nbits offset
             state.nbits_offset = (operand_value - 128) if operand_value else 0
 
